@@ -143,7 +143,7 @@ type mctx struct {
 type model struct {
 	c       Case
 	st      *stats
-	content []*hx.N // rendered page, while the layout is evaluated
+	content []*hx.N         // rendered page, while the layout is evaluated
 	seen    map[string]bool // instance/slot/prop that had a value in an earlier use
 	insts   int
 }
